@@ -102,15 +102,33 @@ def pointToTriangleFn : P String := do
   | .ok r => pure s!"ok {r.1} {rS r.2.1} {rV3 r.2.2}"
   | .error e => pure (rErrS e)
 
+/-- `ok <branch> <main sum> <pos> <w0 w1 w2 w3> <fallback sum> <closest row>`; in the degenerate
+branch (2) the weights are the unit weight on the closest row -/
 def contactPositionFn : P String := do
   let P : Portal α ← pPortal
   let d : V3 α ← pV3
   let s := sum4 (baryMain P.p0.v P.p1.v P.p2.v P.p3.v)
-  match contactPosition P d, contactWeights P.p0.v P.p1.v P.p2.v P.p3.v d with
-  | .ok r, .ok w =>
-    pure s!"ok {r.2} {rS s} {rV3 r.1} {rScalars [w.1.1, w.1.2.1, w.1.2.2.1, w.1.2.2.2]}"
-  | .error e, _ => pure s!"{rErrS e} {rS s}"
-  | _, .error e => pure s!"{rErrS e} {rS s}"
+  let s2 := sum4 (baryFallback P.p1.v P.p2.v P.p3.v d)
+  let k := (closestRow P.p1 P.p2 P.p3).2
+  match contactPosition P d with
+  | .error e => pure s!"{rErrS e} {rS s}"
+  | .ok r =>
+    if r.2 = 2 then
+      let u (j : Nat) : α := if k = j then 1 else 0
+      pure s!"ok 2 {rS s} {rV3 r.1} {rScalars [(0 : α), u 1, u 2, u 3]} {rS s2} {k}"
+    else
+      match contactWeights P.p0.v P.p1.v P.p2.v P.p3.v d with
+      | .ok w => pure s!"ok {r.2} {rS s} {rV3 r.1} {rScalars [w.1.1, w.1.2.1, w.1.2.2.1, w.1.2.2.2]} {rS s2} {k}"
+      | .error e => pure s!"{rErrS e} {rS s}"
+
+/-- the model of `_contact_position` before the repair 045c18e (for labelling a disagreement) -/
+def contactPositionBeforeFixFn : P String := do
+  let P : Portal α ← pPortal
+  let d : V3 α ← pV3
+  let s := sum4 (baryMain P.p0.v P.p1.v P.p2.v P.p3.v)
+  match contactPosition_asIs_before_fix P d with
+  | .error e => pure s!"{rErrS e} {rS s}"
+  | .ok r => pure s!"ok {r.2} {rS s} {rV3 r.1}"
 
 def penetrationInfoFn : P String := do
   let P : Portal α ← pPortal
@@ -188,6 +206,7 @@ def dispatch (fn : String) : Option (P String) :=
   | "C08.expand" => some (expandFn (α := α))
   | "C08.point_to_triangle" => some (pointToTriangleFn (α := α))
   | "C08.contact_position" => some (contactPositionFn (α := α))
+  | "C08.contact_position.before_fix" => some (contactPositionBeforeFixFn (α := α))
   | "C08.penetration_info" => some (penetrationInfoFn (α := α))
   | "C08.touch" => some (touchFn (α := α))
   | "C08.segment" => some (segmentFn (α := α))
